@@ -37,5 +37,7 @@ let handle = function
        | None -> "Short"
        | Some r -> show_o (fun ((items, off), ok) ->
            Printf.sprintf "%s %d %s fused" (if items = [] then "-" else String.concat "," (List.map item items)) (i off) (if ok then "complete" else "error")) r)
+  | ["flat"; b] -> show_o (fun (w, rest) -> hex_of_bytes w ^ " " ^ string_of_int (List.length rest)) (c19_flat (bytes_of_hex b))
+  | ["flat"] -> show_o (fun (w, rest) -> hex_of_bytes w ^ " " ^ string_of_int (List.length rest)) (c19_flat [])
   | _ -> failwith "bad case line"
 let () = main handle
